@@ -14,10 +14,13 @@ import (
 func genC02() *rapid.Generator[SeqCase] {
 	return rapid.Custom(func(t *rapid.T) SeqCase {
 		c := SeqCase{Store: rapid.SampledFrom(gcs.Stores).Draw(t, "store")}
-		pool := gcs.NamePool
-		pool = append(append([]string{}, gcs.NamePool...), gcs.HostileNames...) // URL-parser-hostile names (G6)
+		pool := append(append([]string{}, gcs.AllNames...), gcs.HostileNames...) // URL-parser-hostile names (G6)
 		names := rapid.SliceOfNDistinct(rapid.SampledFrom(pool), 1, 4, func(s string) string { return s }).Draw(t, "names")
-		names = gcs.ConflictFree(names)
+		if rapid.IntRange(0, 7).Draw(t, "nest") == 0 {
+			names = rapid.SliceOfNDistinct(rapid.SampledFrom(gcs.NestNames), 2, 4, func(s string) string { return s }).Draw(t, "nestnames")
+		}
+		// names in directory conflict ("top" / "top/mid/leaf", "b" / "b/x/o/y") may be drawn together: the runner
+		// skips a request whose name is not representable as a file at that moment
 		buckets := gcs.BucketPool[:rapid.IntRange(1, 2).Draw(t, "nbuckets")]
 		prefixes := gcs.PrefixNames(names)
 		step := rapid.Custom(func(t *rapid.T) gcs.Op {
